@@ -21,7 +21,7 @@ for p in props:
         "evidence_file": f"evidence/{pid}.json",
         "replay_cmd_template": "bin/vcheck --replay {path}",
         "engine": "pyvc",
-        "level_claimed": {"category": "proof", "text": M.LEVEL_TEXT, "design_ref": M.DESIGN_REF},
+        "level_claimed": {"category": getattr(M, "LEVEL", "proof"), "text": M.LEVEL_TEXT, "design_ref": M.DESIGN_REF},
         "level_note": M.LEVEL_NOTE,
         "technique": M.TECHNIQUE,
     })
